@@ -4,6 +4,7 @@ mod badgen;
 mod chainsim;
 mod checks;
 mod crashsim;
+mod netsim;
 mod node;
 mod pibdsim;
 mod poolsim;
@@ -109,6 +110,7 @@ fn main() {
 				Some("schedsim") => schedsim::replay(rp),
 				Some("dbsim") => dbsim::replay(rp),
 				Some("apisim") => apisim::replay(rp),
+				Some("netsim") => netsim::replay(rp),
 				Some("wiresim") => {
 					if rp["property"].as_str() == Some("C11") {
 						wiresim::replay_c11(rp)
